@@ -17,6 +17,18 @@ ENV = dict(os.environ, GOFLAGS="-mod=mod", GOPROXY="off", GOSUMDB="off", GOTOOLC
 FLAKY = ("TestGetActiveByID", "TestGetActiveByKind")   # timing dependent on the unchanged tree as well (DESIGN 3a)
 
 
+NS = """ip link set lo up; ip link set lo multicast on; ip route add 224.0.0.0/4 dev lo 2>/dev/null; exec "$@" """
+
+
+def netns(cmd):
+    """run cmd (list or shell string) in a private network namespace: the repository's cluster tests
+    discover every hollywood node on the box over mDNS and use fixed ports, so concurrent runs of the
+    suite disturb each other (DESIGN 3a)"""
+    if isinstance(cmd, str):
+        cmd = ["sh", "-c", cmd]
+    return ["unshare", "-n", "sh", "-c", NS, "sh"] + cmd
+
+
 def sh(cmd, cwd, timeout=900, env=ENV):
     try:
         p = subprocess.run(cmd, cwd=cwd, env=env, text=True, errors="replace", stdout=subprocess.PIPE,
@@ -43,7 +55,7 @@ def drop(d):
 
 def suite(wt):
     """the repository's own suite; returns (ok, failing test names)"""
-    rc, out = sh(["go", "test", "-vet=off", "-count=1", "-timeout", "10m", "./..."], wt)
+    rc, out = sh(netns(["go", "test", "-vet=off", "-count=1", "-timeout", "10m", "./..."]), wt)
     failed = set(re.findall(r"^--- FAIL: (\S+)", out, re.M))
     hard = {f for f in failed if f.split("/")[0] not in FLAKY}
     if rc != 0 and not failed:
@@ -62,7 +74,7 @@ def demo(wt, ddir):
     shutil.copy(os.path.join(ddir, "demo_test.go"), dst)
     cmd = m2.group(1).strip()
     cmd = re.sub(r"^cd \S+ && ", "", cmd)
-    rc, out = sh(cmd, wt, timeout=600)
+    rc, out = sh(netns(cmd), wt, timeout=900)
     os.remove(dst)
     sh(["git", "checkout", "--", "go.sum"], wt)
     return rc == 0, out[-1500:]
@@ -76,6 +88,10 @@ def verify(ddir):
         ok0, out0 = demo(wt, ddir)
         res["demo_passes_without_change"] = ok0
         rc, out = sh(["git", "apply", os.path.join(ddir, "patch.diff")], wt)
+        if rc != 0:
+            rc, out = sh(["git", "apply", "-3", os.path.join(ddir, "patch.diff")], wt)
+            sh(["git", "reset", "-q"], wt)
+            res["applied_3way"] = True
         res["applies"] = rc == 0
         if rc != 0:
             res["error"] = out
@@ -113,6 +129,9 @@ def check(patch, props, tier):
     rows = []
     try:
         rc, out = sh(["git", "apply", patch], wt)
+        if rc != 0:
+            rc, out = sh(["git", "apply", "-3", patch], wt)
+            sh(["git", "reset", "-q"], wt)
         if rc != 0:
             sys.exit("patch does not apply: " + out)
         env = dict(ENV, VERIF_REPO=wt)
